@@ -661,11 +661,12 @@ class Ctx:
             )
             V = {"RkData": DataclassValidator, "RkNamed": NamedTupleValidator, "RkTyped": TypedDictValidator}[rk[0]]
             v = V(cls, **kw)
-            # the model's schema (keys, order, requiredness) must be the one the object derived
-            got = [(k, req) for (k, _f, req) in v._fast_keys_sync]
-            want = [(to_py(p.a, ct), p.b.b) for p in schema]
+            # key set and order must agree with the term (requiredness is *not* checked here:
+            # the model uses the class's declared requiredness, the object whatever it derived)
+            got = [k for (k, _f, _req) in v._fast_keys_sync]
+            want = [to_py(p.a, ct) for p in schema]
             if got != want:
-                raise HarnessError(f"ClassV schema mismatch: object has {got}, term has {want}")
+                raise HarnessError(f"ClassV key mismatch: object has {got}, term has {want}")
             return v
         if c == "UnionV":
             vs = [self.validator(v) for v in t[1]]
